@@ -35,6 +35,15 @@ pub fn should_break_with_space(ending_character: char, next_character: char) -> 
     }
 }
 
+/// A number literal kept with its original spelling may end with `.` (`1.`) or, in Luau, with
+/// `_` (`1_`): the lexers keep reading digits, dots, underscores and letters into the same
+/// number, so such a literal must be separated from a following name, number or `.`.
+#[inline]
+pub fn should_break_after_number(ending_character: char, next_character: char) -> bool {
+    matches!(ending_character, '.' | '_')
+        && (next_character.is_ascii_alphanumeric() || matches!(next_character, '_' | '.'))
+}
+
 pub fn break_long_string(last_str: &str) -> bool {
     if let Some(last_char) = last_str.chars().last() {
         last_char == '['
